@@ -204,8 +204,9 @@ def sample_stage(rep, impl, stats):
         elif want_fail and r["rc"] == 0:
             bad += 1
             capped("sample_" + n, "# negative sample %s is ACCEPTED (rc 0); expected diagnostics:\n# %s\n%s" % (n, exp, src), True)
-        elif n.startswith("neg:") and got and [(l, k) for l, k, _ in got][0] == [(l, k) for l, k, _ in exp][0]:
-            pass      # hand-written negative: rejected, first diagnostic at the offending line
+        elif n.startswith("neg:") and got and [(l, k) for l, k, _ in exp][0] in [(l, k) for l, k, _ in got]:
+            pass      # hand-written negative: rejected, with a diagnostic at the offending line (the property's wording; some checks
+                      # of the compiler print a first line without position — `file:0:` — before the located one)
         elif [(l, k) for l, k, _ in got] != [(l, k) for l, k, _ in exp] or (not want_fail and r["rc"] != 0):
             # lines and severities must be those of the .err file (the wording may change)
             bad += 1
